@@ -105,6 +105,42 @@ CHECKS = {
              "fast == generic (value, gradient) under identity / custom / inverse-covariance weights; every accepted weighting mode equals the reference with the documented weights (2-3 outcomes, thorough 4-5). "
              "Relative entropy (generic and fast), away from the clipping thresholds: value, gradient and Hessian equal the defining formulas with ln uninterpreted. SimpleQuadraticLossFunction Taylor identity.",
         design_ref="DESIGN.md 3/C12"),
+    "C13": dict(
+        technique="symbolic execution of real operation histories on a shared pool of symbolic objects + comparison with a fresh pool (syntactic term identity first, z3 otherwise); bounded history length",
+        category="other",
+        text="Every ordered pair (thorough: triples on a reduced set) of 26 public operations (conversions, verdicts, projections, composition, tensor, copies, probability "
+             "calculation, tomography construction, loss evaluation ...) on one shared composite system and object pool with symbolic parameters: after every step every pool object's "
+             "parameters are unchanged, and afterwards every probe returns what it returns on a freshly built pool. Copies are independent of in-place overwrites of the original; Povm stores "
+             "private read-only arrays; basis tables are read-only; a loss object re-configured (dataset / weighting mode sequences of length <=3) equals a fresh loss for every x. "
+             "Bounded by history length 2 (3) and the operation list; caches keyed by anything else are outside.",
+        design_ref="DESIGN.md 3/C13"),
+    "C14": dict(
+        technique="symbolic execution of the real sampling code with symbolic probabilities, symbolic PRNG draws (contract stub: draw k of stream s is a fresh symbol in [0,1)) and symbolic integer data + z3 (LRA/LIA)",
+        category="other",
+        text="_random_number_to_data / generate_data_from_prob_dist: for every probability vector the validator accepts (exact zeros, sum deficit up to 9e-14) and every draw in [0,1) the "
+             "outcome is in range, has non-zero probability and is the inverse-CDF image (n<=4 outcomes, N<=3 draws; thorough n<=6, N<=4). calc_empi_dist_sequence on symbolic integer data "
+             "(L<=4, thorough 5; K<=2 prefixes): counts/num_sum, non-negative, sums to one, raises only under the documented conditions. Multinomial route with rvs replaced by its contract. "
+             "Seed data-flow: with an integer seed the output depends on that seed's stream only, equal seeds consume equal draws, None uses the global stream, a shared generator advances. "
+             "NOT claimed: anything about MT19937/PCG bit streams or scipy's multinomial sampler (C code).",
+        design_ref="DESIGN.md 3/C14"),
+    "C18": dict(
+        technique="symbolic execution of the real effective-Lindbladian code on symbolic H / J / K / jump matrices + z3 (polynomial identities, spectral parametrisation of K for verdicts and projection)",
+        category="other",
+        text="generate_effective_lindbladian_from_{h,hk,hjk,k} and from jump operators: action on every basis element equals the GKSL right-hand side (1 qubit; thorough qutrit / 2 qubits for the "
+             "linear obligations); calc_h_mat / calc_j_mat / calc_k_mat extraction round-trips; fast (sparse-table) == slow; is_tp <=> trace functional annihilates the generator; is_cp <=> K >= -atol "
+             "with K = V diag(w) V^dagger symbolic w; inequality projection replaces K by its positive part and keeps H, J; variables <-> generator with the implied first row ZERO. "
+             "NOT claimed: expm-based to_gate / from_gate (C kernel) beyond concrete translator validation.",
+        design_ref="DESIGN.md 3/C18"),
+    "C19": dict(
+        technique="symbolic execution of the real analytical-error code with a symbolic true object + exact expectation by complete enumeration of multinomial count vectors (pmf polynomials) with the REAL LinearEstimator run on each data set + z3 (polynomial / rational identities; near-duplicate quotient lemmas proved by exact NRA)",
+        category="other",
+        text="1-qubit state tomography (3 projective Pauli POVMs) and POVM tomography (4 Pauli eigenstates, m=2; m=3 in the constrained qoperation mode; thorough m=3 everywhere), both "
+             "parametrisations, true object symbolic with all probabilities >= 1e-3: calc_covariance_mat_single/total == (diag p - p p^T)/N == enumerated multinomial covariance (N=2,3; thorough up to 4, unequal N per schedule); "
+             "calc_mse_empi_dists_analytical == enumerated sum E|f-p|^2; calc_mse_linear_analytical (mode var and qoperation, incl. the implied POVM element) == enumerated E|estimate - truth|^2 "
+             "with the real linear estimator (N=1,2; thorough 3); Fisher matrix == sum (grad p)(grad p)^T/p and weighted total; Cramer-Rao bound at a concrete interior point with SYMBOLIC N and unequal list_N == "
+             "Tr[(sum N_j F_j)^-1] (+ implied-element term), independent of N. matrix_util helpers (calc_se, calc_direct_sum, calc_conjugate, calc_covariance_mat, calc_left_inv). "
+             "NOT claimed: larger N / systems, asymptotic statements, the simulation-side Monte-Carlo comparisons.",
+        design_ref="DESIGN.md 3/C19"),
     "C16": dict(
         technique="symbolic execution of the real index / distribution code (symbolic probabilities, symbolic integer indices) + z3 (LRA/NRA with division lemmas); CrossHair on index_util with symbolic shapes",
         category="other",
